@@ -244,7 +244,10 @@ class RFrame:
                     raise SymRaise("KeyError", k, node, ("KeyError", "LookupError", "Exception"))
             return self.derive(cells=OrderedDict((k, self.cells[k]) for k in key))
         if isinstance(key, RMask):
-            return self.derive(mult=_ite(key.cond, self.mult, 0), note=f"filter[{key.note}]")
+            mult = _ite(key.cond, self.mult, 0)
+            if getattr(key, "dedup", False):
+                mult = z3.If(to_z3(mult) > 0, 1, 0)
+            return self.derive(mult=mult, note=f"filter[{key.note}]")
         if isinstance(key, slice) and key.start is None and key.step is None and isinstance(key.stop, int) and key.stop == -1:
             u = next_label_universe(interp, self)
             return self.derive(mult=z3.If(u["is_last"], 0, to_z3(self.mult)), note="[:-1]")
@@ -382,7 +385,9 @@ class RMask:
         self.note = note
 
     def sym_invert(self, interp, node):
-        return RMask(self.frame, _not(self.cond), f"~({self.note})")
+        m = RMask(self.frame, _not(self.cond), f"~({self.note})")
+        m.dedup = getattr(self, "dedup", False)
+        return m
 
     def sym_binop(self, interp, op, l, r, node):
         if isinstance(l, RMask) and isinstance(r, RMask):
@@ -466,6 +471,8 @@ class RIndex:
     def sym_getitem(self, interp, key, node):
         if isinstance(key, RMask):
             return RIndex(self.frame.derive(mult=_ite(key.cond, self.frame.mult, 0), note=f"filter[{key.note}]"))
+        if isinstance(key, int):
+            return _OpaqueStamp(f"index[{key}]")
         if isinstance(key, slice) and key.step is None:
             if key.start == 1 and key.stop is None:
                 return _RIndexPart(self.frame, "tail")      # index[1:]  -- every label but the first
@@ -501,6 +508,15 @@ class RIndex:
         if name == "empty":
             n = self.frame.sym_len(interp, node)
             return n == 0
+        if name == "duplicated":
+            def duplicated(keep="first", **k):
+                if keep != "first":
+                    raise Unsupported("index.duplicated(keep != 'first')", node)
+                # the arbitrary row stands for the FIRST occurrence of its label: it is never flagged; ~duplicated keeps exactly one row per label
+                m = RMask(self.frame, False, "index.duplicated(keep='first')")
+                m.dedup = True
+                return m
+            return _Callable(duplicated)
         if name == "freq":
             return getattr(self.frame, "index_freq", None)
         if name == "inferred_freq":
@@ -633,6 +649,8 @@ class _RNextDelta:
         return Cell(z3.If(u["is_last"], NAN, NUM), val)
 
 
+assumed("pd.asfreq", "Series.asfreq(step, method='ffill') puts the value at each label on every grid point up to the next label (NaN included); the grid "
+                     "starts at the first label")
 assumed("pd.index_diff", "index[1:] - index[:-1] of a sorted unique DatetimeIndex is, row by row, the time to the next label (elapsed time for a "
                          "timezone-aware index, wall-clock time after tz_localize(None)); .days truncates to whole days")
 
@@ -741,6 +759,28 @@ class RSeries:
             return _Callable(map_)
         if name == "resample":
             return _Callable(lambda rule, *a, **k: RResampler(self, rule))
+        if name == "asfreq":
+            def asfreq(freq, method=None, **k):
+                # assumed pandas contract: a regular grid of step `freq` starting at the first label; with method="ffill" every grid point in
+                # [label, next label) carries the VALUE AT `label` (NaN included).  The reading therefore occupies seconds_to_next / step grid
+                # points, provided the step divides every interval (obligation below); the last reading occupies one.
+                from .sortedindex import parse_timedelta
+                if method != "ffill" or k:
+                    raise Unsupported("asfreq other than method='ffill'", node)
+                ns = parse_timedelta(freq) if isinstance(freq, str) else None
+                if ns is None:
+                    raise Unsupported(f"asfreq({freq!r})", node)
+                use(interp, "pd.asfreq")
+                step = ns / 1e9
+                u = next_label_universe(interp, self.frame)
+                q = u["next_seconds"] / step
+                interp.run.check(f"safety.asfreq_grid[{interp.where(None)}]", z3.Implies(z3.And(self.frame.member(), z3.Not(u["is_last"])), z3.And(z3.IsInt(q), q >= 1)),
+                                 kind="safety", loc=f"line {getattr(node, 'lineno', '?')}")
+                n = z3.If(u["is_last"], z3.RealVal(1), q)
+                f = self.frame.derive(mult=z3.If(self.frame.member(), z3.ToInt(n), 0), note=f"asfreq({freq!r}, ffill)")
+                f.slot_seconds = step
+                return RSeries(f, c, self.name)
+            return _Callable(asfreq)
         if name == "rename":
             return _Callable(lambda nm=None, *a, **k: RSeries(self.frame, c, nm if isinstance(nm, str) else self.name))
         if name == "to_frame":
@@ -782,7 +822,10 @@ class RSeries:
 
     def sym_getitem(self, interp, key, node):
         if isinstance(key, RMask):
-            f = self.frame.derive(mult=_ite(key.cond, self.frame.mult, 0), note=f"filter[{key.note}]")
+            mult = _ite(key.cond, self.frame.mult, 0)
+            if getattr(key, "dedup", False):
+                mult = z3.If(to_z3(mult) > 0, 1, 0)
+            f = self.frame.derive(mult=mult, note=f"filter[{key.note}]")
             return RSeries(f, self.cell, self.name)
         raise Unsupported("series subscript other than a boolean mask", node)
 
@@ -826,7 +869,8 @@ class RResampler:
         s = self.series
 
         def mk(func):
-            return RAgg(func, s.name, s.frame.root, tuple(s.frame.filters), self.rule, s.frame.index_tag)
+            return RAgg(func, s.name, s.frame.root, tuple(s.frame.filters), self.rule, s.frame.index_tag,
+                        contrib={"kind": s.cell.kind, "val": s.cell.val, "mult": s.frame.mult, "slot_seconds": getattr(s.frame, "slot_seconds", None)})
         if name in ("sum", "mean", "first", "last", "count", "min", "max", "median", "std"):
             return _Callable(lambda *a, **k: mk(name if not k else f"{name}({sorted(k.items())})"))
         if name in ("apply", "agg", "aggregate"):
@@ -851,13 +895,23 @@ class RAgg:
     """one aggregated column: structural record"""
     pandas_kind = "Series"
 
-    def __init__(self, func, column, frame_uid, filters, rule, index_tag):
+    def __init__(self, func, column, frame_uid, filters, rule, index_tag, contrib=None):
         self.func = func
         self.column = column
         self.frame_uid = frame_uid
         self.filters = filters
         self.rule = rule
         self.index_tag = index_tag
+        # ghost: (cell, multiplicity, slot seconds) of the ARBITRARY SOURCE ROW at the time of aggregation -- what that row puts into its bin(s)
+        self.contrib = contrib
+
+    def _like(self, func, **kw):
+        return RAgg(func, kw.get("column", self.column), self.frame_uid, kw.get("filters", self.filters), self.rule, self.index_tag, self.contrib)
+
+    def sym_getitem(self, interp, key, node):
+        if isinstance(key, RAgg):          # boolean selection by another aggregate of the same bins
+            return self._like(f"{self.func}[where {key.func}[{key.column}]]")
+        raise Unsupported("subscript of an aggregated Series", node)
 
     def sym_getattr(self, interp, name, node):
         if name in ("func", "column", "frame_uid", "rule", "index_tag"):
@@ -869,15 +923,55 @@ class RAgg:
         if name in ("fillna", "astype", "round", "clip", "abs", "rename", "pow", "mul", "div"):
             def post(*a, **k):
                 return RAgg(f"{self.func}.{name}({', '.join(map(repr, a))})", self.column, self.frame_uid, self.filters, self.rule,
-                            self.index_tag)
+                            self.index_tag, self.contrib)
             return _Callable(post)
+        if name in ("notnull", "notna", "isnull", "isna"):
+            return _Callable(lambda *a, **k: self._like(f"{self.func}.{'notnull' if name in ('notnull', 'notna') else 'isnull'}()"))
+        if name == "reindex":
+            # onto the index of an aggregate of the same bins: bins dropped by a selection come back as NaN
+            return _Callable(lambda index=None, *a, **k: self._like(f"{self.func}.reindex(bins)"))
+        if name == "index":
+            return _AggBins(self)
+        if name == "resample":
+            return _Callable(lambda rule, *a, **k: _AggResampler(self, rule))
+        if name == "to_frame":
+            return _Callable(lambda nm=None, *a, **k: RAggFrame([self._like(self.func, column=nm or self.column)]))
+        if name == "contrib":
+            return self.contrib
+        if name == "iloc":
+            return _AggILoc(self)
         raise Unsupported(f"aggregated Series.{name}", node)
 
     def sym_binop(self, interp, op, l, r, node):
         def d(x):
             return x.func + "[" + str(x.column) + "]" if isinstance(x, RAgg) else repr(x)
         base = l if isinstance(l, RAgg) else r
-        return RAgg(f"({d(l)}{type(op).__name__}{d(r)})", base.column, base.frame_uid, base.filters, base.rule, base.index_tag)
+        return RAgg(f"({d(l)}{type(op).__name__}{d(r)})", base.column, base.frame_uid, base.filters, base.rule, base.index_tag, base.contrib)
+
+
+class _AggBins:
+    """the bin labels of an aggregated series"""
+
+    def __init__(self, agg):
+        self.agg = agg
+
+    def sym_getitem(self, interp, key, node):
+        if isinstance(key, int):
+            return _OpaqueStamp(f"bin label [{key}]")
+        raise Unsupported("subscript of bin labels", node)
+
+
+class _AggResampler:
+    """resample of an already aggregated series (used to count atomic slots per bin)"""
+
+    def __init__(self, agg, rule):
+        self.agg, self.rule = agg, rule
+
+    def sym_getattr(self, interp, name, node):
+        if name in ("count", "sum", "mean", "first"):
+            return _Callable(lambda *a, **k: RAgg(f"{self.agg.func}.resample({self.rule!r}).{name}()", self.agg.column, self.agg.frame_uid, self.agg.filters,
+                                                  self.agg.rule, self.agg.index_tag, self.agg.contrib))
+        raise Unsupported(f"Resampler.{name} of an aggregate", node)
 
 
 class RAggFrame:
@@ -891,18 +985,62 @@ class RAggFrame:
         if name == "cols":
             return list(self.cols)
         if name == "columns":
-            return [c.column for c in self.cols]
+            return _AggColumns(c.column for c in self.cols)
         if name == "index":
             return _AggIndex(self)
         if name == "index_ops":
             return list(self.index_ops)
+        if name == "iloc":
+            return _AggILoc(self)
+        for c in self.cols:
+            if c.column == name:
+                return c
         raise Unsupported(f"aggregated DataFrame.{name}", node)
+
+    def sym_getitem(self, interp, key, node):
+        for c in self.cols:
+            if c.column == key:
+                return c
+        raise Unsupported("subscript of an aggregated DataFrame", node)
+
+    def sym_setitem(self, interp, key, value, node):
+        if isinstance(key, str) and isinstance(value, RAgg):
+            col = value._like(value.func, column=key)
+            self.cols = [c for c in self.cols if c.column != key] + [col]
+            return
+        raise Unsupported("store into an aggregated DataFrame", node)
 
     def sym_setattr(self, interp, name, value, node):
         if name == "index" and isinstance(value, _AggIndex):
             self.index_ops = list(value.ops)
             return
         raise Unsupported(f"attribute store on an aggregated DataFrame.{name}", node)
+
+
+class _AggColumns(list):
+    pass
+
+
+libmodels.METHODS[("_AggColumns", "get_loc")] = lambda interp, recv, args, kwargs, node, frame: list(recv).index(args[0])
+
+
+class _AggILoc:
+    """positional access to an aggregated frame / column: only the LAST bin is modelled (an unknown value; a store is recorded)"""
+
+    def __init__(self, owner):
+        self.owner = owner
+
+    def sym_getitem(self, interp, key, node):
+        if key == -1 and isinstance(self.owner, RAgg):
+            return interp.run.fresh_real("last_bin_value")
+        raise Unsupported("positional read of an aggregate other than the last bin of a column", node)
+
+    def sym_setitem(self, interp, key, value, node):
+        if isinstance(self.owner, RAggFrame) and isinstance(key, tuple) and len(key) == 2 and key[0] == -1 and isinstance(key[1], int):
+            col = self.owner.cols[key[1]]
+            self.owner.cols[key[1]] = col._like(f"{col.func}.with_last_bin({value!r})")
+            return
+        raise Unsupported("positional store into an aggregate other than [last bin, column]", node)
 
 
 class _AggIndex:
@@ -1103,6 +1241,25 @@ def install():
     @libmodels.api("series_member")
     def _series_member(interp, args, kwargs, node, frame):
         return args[0].frame.member()
+
+    @libmodels.api("agg_func")
+    def _agg_func(interp, args, kwargs, node, frame):
+        return args[0].func
+
+    @libmodels.api("agg_rule")
+    def _agg_rule(interp, args, kwargs, node, frame):
+        return args[0].rule
+
+    @libmodels.api("agg_contrib")
+    def _agg_contrib(interp, args, kwargs, node, frame):
+        """(kind, value, multiplicity, slot seconds) of the arbitrary source row inside the aggregate"""
+        c = args[0].contrib
+        return (c["kind"], c["val"], c["mult"], c["slot_seconds"])
+
+    @libmodels.api("row_series")
+    def _row_series(interp, args, kwargs, node, frame):
+        f = _row_frame(interp, [[args[0]]], {"label": kwargs.get("label", "series")}, node, frame)
+        return RSeries(f, f.cells[args[0]], args[0])
 
     @libmodels.api("median_of")
     def _median_of(interp, args, kwargs, node, frame):
